@@ -15,6 +15,7 @@ definition, the equality no longer checks, and the proof stage fails — no samp
 import ast
 import hashlib
 import os
+import types
 import sys
 
 sys.path.insert(0, os.path.dirname(os.path.abspath(__file__)))
@@ -844,6 +845,230 @@ qtls_spec("handle_encrypted_extensions", RB1, calls=[("get_extensions", RB1)])
 qtls_spec("handle_record", [("record_type", "Nat"), ("record", "Bytes")],
           calls=[("handle_client_hello", RB1), ("handle_server_hello", RB1), ("handle_encrypted_extensions", RB1)])
 
+# quic_session.py, the packet path over the MODEL's state record itself (`TLX.Quic.Session.St σ`, σ = the QuicTlsSession object):
+# `handle_frame`, `decrypt_packet`. A frame object is the model's `Out` (the parsed frame + what is read of `frame.src_packet`),
+# a packet object the model's `Pkt`, a QuicDecryptor the model's `Dec`; `self.decryptors["…"]` are the four Option fields
+# (KeyError on `none`, `maybe_keys`). Externals: handle_crypto_frame, check_key_epoch, get_full_packet_number,
+# set_largest_packet_number (the last three are translated in groups Pn / QuicSess on their own), `QuicDecryptor.decrypt`, parse_frames.
+QS_ST = "TLX.Quic.Session.St σ"
+OUT = "TLX.Quic.Session.Out"
+PKT = "TLX.Quic.Pkt"
+QS_DECL = ("/-- `isinstance(frame, C)` for the frame classes of quic_frame.py (all direct subclasses of `Frame`) -/\n"
+           f"def QS.isCrypto (f : {OUT}) : Bool := match f.frame with | .parsed (.crypto ..) => true | _ => false\n"
+           f"def QS.isStream (f : {OUT}) : Bool := match f.frame with | .parsed (.stream ..) => true | _ => false\n"
+           f"def QS.isNewCid (f : {OUT}) : Bool := match f.frame with | .parsed (.newConnectionId ..) => true | _ => false\n"
+           f"def QS.isClose (f : {OUT}) : Bool := match f.frame with | .parsed (.connectionClose ..) => true | _ => false\n"
+           f"def QS.isVersionNeg (f : {OUT}) : Bool := match f.frame with | .versionNeg => true | _ => false\n"
+           "/-- `frame.connection_id` (read for a NewConnectionIdFrame only) -/\n"
+           f"def QS.connectionId (f : {OUT}) : Bytes := match f.frame with | .parsed (.newConnectionId _ _ _ _ cid _) => cid | _ => []\n"
+           "/-- `isinstance(quic_packet, ShortQuicPacket)` / `LongQuicPacket` (the two classes are disjoint) -/\n"
+           f"def QS.isShort (p : {PKT}) : Bool := decide (p.htype = .short)\n"
+           f"def QS.isLong (p : {PKT}) : Bool := decide (p.htype = .long)\n"
+           "/-- `quic_packet.supported_version` (a VersionNegotiationPacket; stored in the pseudo frame, never read: not modelled) -/\n"
+           f"def QS.supportedVersion (p : {PKT}) : Bytes := []\n"
+           "/-- `PseudoVersionNegotiationFrame(payload=…, src_packet=quic_packet)` -/\n"
+           f"def QS.vnFrame (payload : Bytes) (p : {PKT}) : {OUT} := ⟨.versionNeg, p.ts, p.isServer, p.ptype⟩\n")
+GROUPS["QuicSess2"] = dict(imports=["TLX.PyRt", "TLX.Quic.Session"], decls=[QS_DECL], options=["set_option linter.unusedVariables false"])
+QS_PLACES = [("self.server_cids", "serverCids", "Set Bytes", "s"), ("self.client_cids", "clientCids", "Set Bytes", "s"),
+             ("self.output_buffer", "out", f"List {OUT}", "s"),
+             ("self.epoch_server", "epochServer", "Nat", "s"), ("self.epoch_client", "epochClient", "Nat", "s"),
+             ("self.decryptors['Initial']", "decInitial", f"Option {QDEC}", "s"),
+             ("self.decryptors['Handshake']", "decHandshake", f"Option {QDEC}", "s"),
+             ("self.decryptors['Early']", "decEarly", f"Option {QDEC}", "s"),
+             ("self.decryptors['Application']", "decApp", f"Option (List {QDEC})", "s")]
+QS_KEYS = ["self.decryptors['Initial']", "self.decryptors['Handshake']", "self.decryptors['Early']", "self.decryptors['Application']"]
+QS_RES = f"PyRt.Res ({QS_ST})"
+QS_EXT = {"handle_crypto_frame": ("handle_crypto_frame", f"{QS_ST} → {OUT} → {QS_RES} Unit"),
+          "check_key_epoch": ("check_key_epoch", f"{QS_ST} → Option Nat → Bool → {QS_RES} Unit"),
+          "get_full_packet_number": ("get_full_packet_number", f"{QS_ST} → {PKT} → {QS_RES} Bytes"),
+          "set_largest_packet_number": ("set_largest_packet_number", f"{QS_ST} → {PKT} → Bytes → {QS_RES} Unit"),
+          "dec_decrypt": ("dec_decrypt", f"{QDEC} → Option Bytes → Bytes → Bytes → Bool → Except PyRt.Err Bytes"),
+          "parse_frames": ("parse_frames", f"Bytes → {PKT} → Except PyRt.Err (List {OUT})")}
+QS_ATTRS = {(OUT, "src_packet"): ("id", OUT + ".src"), (OUT + ".src", "isserver"): (f"{OUT}.isServer", "Bool"),
+            (OUT, "connection_id"): ("QS.connectionId", "Bytes"),
+            (PKT, "packet_type"): (f"{PKT}.ptype", PT), (PKT, "isserver"): (f"{PKT}.isServer", "Bool"),
+            (PKT, "key_phase"): (f"{PKT}.keyPhase", "Option Nat"), (PKT, "first_byte"): (f"{PKT}.firstByte", "Bytes"),
+            (PKT, "version"): (f"{PKT}.version", "Option Bytes"), (PKT, "dcid_len"): (f"{PKT}.dcidLen", "Option Bytes"),
+            (PKT, "dcid"): (f"{PKT}.dcid", "Bytes"), (PKT, "scid_len"): (f"{PKT}.scidLen", "Option Bytes"),
+            (PKT, "scid"): (f"{PKT}.scid", "Option Bytes"), (PKT, "token_len_bytes"): (f"{PKT}.tokenLenBytes", "Option Bytes"),
+            (PKT, "token"): (f"{PKT}.token", "Option Bytes"), (PKT, "packet_len_bytes"): (f"{PKT}.lenBytes", "Option Bytes"),
+            (PKT, "packet_num"): (f"{PKT}.pn", "Option Bytes"), (PKT, "payload"): (f"{PKT}.payload", "Option Bytes")}
+QS_CLASSES = {(OUT, "CryptoFrame"): "QS.isCrypto", (OUT, "StreamFrame"): "QS.isStream", (OUT, "NewConnectionIdFrame"): "QS.isNewCid",
+              (OUT, "ConnectionCloseFrame"): "QS.isClose", (OUT, "PseudoVersionNegotiationFrame"): "QS.isVersionNeg",
+              (PKT, "ShortQuicPacket"): "QS.isShort", (PKT, "LongQuicPacket"): "QS.isLong"}
+QSF = "tlexport/quic/quic_session.py"
+
+
+def qs_spec(func, params, ext, name=None, **more):
+    spec = dict(name="QS." + (name or func), group="QuicSess2", file=QSF, func="QuicSession." + func, params=params, ret="None",
+                tparams=["σ"], state=dict(type=QS_ST, param="st"), always_res=True, places=QS_PLACES, maybe_keys=QS_KEYS,
+                consts=PTYPE, attr_funcs=QS_ATTRS, classes=QS_CLASSES, externals=[QS_EXT[e] for e in ext],
+                theorem=f"QSess.{name or func}_eq_model")
+    spec.update(more)
+    SPECS.append(spec)
+
+
+qs_spec("handle_frame", [("frame", OUT)], ["handle_crypto_frame"],
+        state_calls={"self.handle_crypto_frame": dict(kind="extshared", lean="handle_crypto_frame", args=[OUT], ret="None")})
+# decrypt_packet in three fragments of its `try:` body (the whole body, continuation-passed, is 1400 lines of Lean): the decryptor
+# selection, the associated data, and everything from `decryptor.decrypt` on (AEAD check → largest packet number → parse_frames →
+# handle_frame loop). NOT covered: that the fragments run in this order inside one try/except.
+qs_spec("decrypt_packet", [("quic_packet", PKT)], ["check_key_epoch"], name="decrypt_select",
+        select={"start": "if isinstance(quic_packet, ShortQuicPacket):"}, maybe_locals={"decryptor": QDEC},
+        outs=[("decryptor", f"Option {QDEC}")],
+        state_calls={"self.check_key_epoch": dict(kind="extshared", lean="check_key_epoch", args=["Option Nat", "Bool"], ret="None")})
+qs_spec("decrypt_packet", [("quic_packet", PKT)], [], name="decrypt_aad",
+        select={"start": "if isinstance(quic_packet, LongQuicPacket):"}, maybe_locals={"associated_data": "Bytes"},
+        outs=[("associated_data", "Option Bytes")])
+qs_spec("decrypt_packet", [("quic_packet", PKT), ("decryptor", QDEC), ("packet_number", "Bytes"), ("associated_data", "Bytes")],
+        ["handle_crypto_frame", "set_largest_packet_number", "dec_decrypt", "parse_frames"], name="decrypt_rest",
+        select={"start": "payload = decryptor.decrypt(", "end": "for frame in frames:"},
+        calls={"parse_frames": dict(lean="parse_frames", args=["Bytes", PKT], ret=f"List {OUT}", raises=True)},
+        obj_methods={(QDEC, "decrypt"): dict(lean="dec_decrypt", args=["Option Bytes", "Bytes", "Bytes", "Bool"], ret="Bytes", raises=True)},
+        state_calls={"self.set_largest_packet_number": dict(kind="extshared", lean="set_largest_packet_number", args=[PKT, "Bytes"], ret="None"),
+                     "self.handle_frame": dict(kind="shared", lean="QS.handle_frame", exts=["handle_crypto_frame"], args=[OUT], ret="None")})
+# the whole method: the three parts above in their order inside the try/except (`join_raises`: an `if` whose branches may raise
+# is one `Res` value, so that the statements after it are rendered once)
+qs_spec("decrypt_packet", [("quic_packet", PKT)],
+        ["handle_crypto_frame", "check_key_epoch", "get_full_packet_number", "set_largest_packet_number", "dec_decrypt", "parse_frames"],
+        maybe_locals={"decryptor": QDEC, "associated_data": "Bytes"}, join_raises=True,
+        drop_calls=["print(e)", "logging.warning(f'Could not decrypt Quic Packet: {quic_packet.dcid}')"],
+        calls={"parse_frames": dict(lean="parse_frames", args=["Bytes", PKT], ret=f"List {OUT}", raises=True)},
+        obj_methods={(QDEC, "decrypt"): dict(lean="dec_decrypt", args=["Option Bytes", "Bytes", "Bytes", "Bool"], ret="Bytes", raises=True)},
+        state_calls={"self.check_key_epoch": dict(kind="extshared", lean="check_key_epoch", args=["Option Nat", "Bool"], ret="None"),
+                     "self.get_full_packet_number": dict(kind="extshared", lean="get_full_packet_number", args=[PKT], ret="Bytes"),
+                     "self.set_largest_packet_number": dict(kind="extshared", lean="set_largest_packet_number", args=[PKT, "Bytes"], ret="None"),
+                     "self.handle_frame": dict(kind="shared", lean="QS.handle_frame", exts=["handle_crypto_frame"], args=[OUT], ret="None")})
+# handle_quic_packet: the loop over the dissected packets (decrypt_packet; the Version Negotiation pseudo frame; the reset after a
+# Retry; learning both CIDs from an Initial). `self.decryptors = {}` / `self.keys = {}` / the three suite attributes are mapped to
+# the model's fields by `stmt_updates`; `scid` / `supported_version` exist on long-header packet objects only (`attr_guards`).
+QS_ALL_EXT = ["handle_crypto_frame", "check_key_epoch", "get_full_packet_number", "set_largest_packet_number", "dec_decrypt", "parse_frames"]
+QS_EXT["tls_init"] = ("tls_init", "σ")
+QS_RETRY = {"self.tls_session = QuicTlsSession()": "tls := tls_init",
+            "self.decryptors = {}": "decInitial := none, decHandshake := none, decEarly := none, decApp := none",
+            "self.keys: dict[str, bytes] = {}": "keysInitial := false, keysHs := false, keysApp := false, keysEarly := false",
+            "self.hash_fun = None": "suite := none", "self.cipher = None": "", "self.key_length = None": "", "self.alpn = None": "",
+            "self.packet_buffer_quic = []": ""}
+qs_spec("handle_quic_packet", [], QS_ALL_EXT + ["tls_init"],
+        places=QS_PLACES + [("self.packet_buffer_quic", "pkts", f"List {PKT}", "r")], stmt_updates=QS_RETRY,
+        attr_funcs={**QS_ATTRS, (PKT, "supported_version"): ("QS.supportedVersion", "Bytes")},
+        attr_guards={(PKT, "scid"): "QS.isLong", (PKT, "supported_version"): "QS.isLong"},
+        calls={"PseudoVersionNegotiationFrame": dict(lean="QS.vnFrame", params=["payload", "src_packet"], args=["Bytes", PKT], ret=OUT)},
+        state_calls={"self.decrypt_packet": dict(kind="shared", lean="QS.decrypt_packet", exts=QS_ALL_EXT, args=[PKT], ret="None"),
+                     "self.handle_frame": dict(kind="shared", lean="QS.handle_frame", exts=["handle_crypto_frame"], args=[OUT], ret="None")})
+# handle_crypto_frame: the QuicTlsSession object is the opaque σ (`update_session`, its attributes and the reset of `new_data` are
+# externals); `self.alpn` / `self.greasy_bit` are outside the model.
+QSV = "TLX.Quic.Session.Version"
+QS_EXT.update({"tls_update": ("tls_update", f"σ → {OUT} → PyRt.Res σ Unit"), "tls_new_data": ("tls_new_data", "σ → Bool"),
+               "tls_client_random": ("tls_client_random", "σ → Option Bytes"), "tls_ciphersuite": ("tls_ciphersuite", "σ → Option Bytes"),
+               "tls_clear_new_data": ("tls_clear_new_data", "σ → σ"),
+               "set_tls_decryptors": ("set_tls_decryptors", f"{QS_ST} → Option Bytes → Option Bytes → {QS_RES} Unit"),
+               "set_initial_decryptor": ("set_initial_decryptor", f"{QS_ST} → Bytes → Bool → {QS_RES} Unit"),
+               "packet_isserver": ("packet_isserver", f"{QS_ST} → PacketObj → Bytes → {QS_RES} Bool")})
+qs_spec("handle_crypto_frame", [("frame", OUT)],
+        ["tls_update", "tls_new_data", "tls_client_random", "tls_ciphersuite", "tls_clear_new_data", "set_tls_decryptors"],
+        places=QS_PLACES + [("self.tls_session", "tls", "σ", "s")],
+        attr_funcs={**QS_ATTRS, ("σ", "new_data"): ("tls_new_data", "Bool"), ("σ", "client_random"): ("tls_client_random", "Option Bytes"),
+                    ("σ", "ciphersuite"): ("tls_ciphersuite", "Option Bytes")},
+        stmt_updates={"self.alpn = self.tls_session.alpn": "", "self.greasy_bit = self.tls_session.greasy_bit": "",
+                      "self.tls_session.new_data = False": "tls := tls_clear_new_data {st}.tls"},
+        state_calls={"self.tls_session.update_session": dict(kind="method", recv="self.tls_session", lean="tls_update", args=[OUT], ret="None"),
+                     "self.set_tls_decryptors": dict(kind="extshared", lean="set_tls_decryptors", args=["Option Bytes", "Option Bytes"], ret="None")})
+# handle_packet up to its loop: the version latch, the Initial decryptor from the routing DCID, the direction of the datagram
+qs_spec("handle_packet", [("packet", "PacketObj"), ("dcid", "Bytes"), ("quic_version", QSV)], ["set_initial_decryptor", "packet_isserver"],
+        name="handle_packet_pre", tparams=["σ", "PacketObj"],
+        select={"start": "if self.quic_version == QuicVersion.UNKNOWN:", "end": "isserver = self.packet_isserver(packet, dcid)"},
+        outs=[("isserver", "Bool")],
+        places=QS_PLACES + [("self.quic_version", "version", QSV, "s")],
+        consts={**PTYPE, "QuicVersion.UNKNOWN": (f"{QSV}.unknown", QSV),
+                "'Initial' not in list(self.decryptors.keys())": ("(Option.isNone {st}.decInitial)", "Bool")},
+        state_calls={"self.set_initial_decryptor": dict(kind="extshared", lean="set_initial_decryptor", args=["Bytes", "Bool"], ret="None"),
+                     "self.packet_isserver": dict(kind="extshared", lean="packet_isserver", args=["PacketObj", "Bytes"], ret="Bool")})
+
+# main.py, what the Demux group leaves: the key-log statements of run() (the `-s` file, a decryption secrets block of the capture),
+# the collection of the exported frames (every TLS session in list order, then every QUIC session), the TCP session lookup /
+# creation of handle_packet. Sessions are opaque objects (σ / τ), their methods externals; κ = a key-log entry, ο = an exported frame.
+GROUPS["Main2"] = dict(imports=["TLX.PyRt", "TLX.MainLoop", "TLX.Quic.Packet"], decls=[], options=["set_option linter.unusedVariables false"])
+MAINF = "tlexport/main.py"
+SPECS.append(dict(name="Main.collect", group="Main2", file=MAINF, func="run", theorem="Main2.collect_eq_model",
+                  select={"start": "all_decrypted_sessions = []", "end": "for quic_session in quic_sessions:"}, tparams=["σ", "τ", "ο"],
+                  params=[("sessions", "List σ"), ("quic_sessions", "List τ"), ("metadata", "Bool")],
+                  locals={"all_decrypted_sessions": "List ο"}, outs=[("all_decrypted_sessions", "List ο")], st_tparams=["ο"],
+                  externals=[("tls_out", "σ → List ο"), ("quic_out", "τ → Bool → List ο")],
+                  obj_methods={("σ", "decrypt"): dict(lean="tls_out", args=[], ret="List ο"),
+                               ("τ", "build_output"): dict(lean="quic_out", args=["Bool"], ret="List ο")}))
+SPECS.append(dict(name="Main.run_dsb", group="Main2", file=MAINF, func="run", theorem="Main2.run_dsb_eq_model",
+                  select={"start": "if ts == -1:"}, tparams=["κ"], st_tparams=["κ"], params=[("ts", "Int"), ("buf", "Bytes")], exits=True,
+                  places=[("keylog", "keylog", "List κ", "rw")], externals=[("keys_of", "Bytes → List κ")],
+                  consts={"keylog_reader.get_keys_from_string(buf.decode('ascii'))": ("(keys_of buf)", "List κ")}))
+SPECS.append(dict(name="Main.run_keylog_file", group="Main2", file=MAINF, func="run", theorem="Main2.run_keylog_file_eq_model",
+                  select={"start": "if args.sslkeylog is not None:"}, tparams=["κ", "ρ"], st_tparams=["κ"], params=[],
+                  places=[("keylog", "keylog", "List κ", "rw"), ("args.sslkeylog", "sslkeylog", "Option ρ", "r")],
+                  externals=[("file_keys", "Option ρ → List κ")],
+                  calls={"keylog_reader.read_keylog_from_file": dict(lean="file_keys", args=["Option ρ"], ret="List κ")}))
+# handle_packet (TLS over TCP): the first session in list order that matches gets the packet; else a new one iff a port is a server port
+SPECS.append(dict(name="Main.handle_packet", group="Main2", file=MAINF, func="handle_packet", theorem="Main2.handle_packet_eq_model",
+                  tparams=["σ", "π"], st_tparams=["σ"], params=[("packet", "π")], ret="None",
+                  places=[("sessions", "sessions", "List σ", "rw"), ("server_ports", "server_ports", "List Int", "r"),
+                          ("packet.dport", "dport", "Int", "r"), ("packet.sport", "sport", "Int", "r")],
+                  obj_lists={"sessions": "σ"}, externals=[("matches_session", "σ → π → Bool"), ("feed", "σ → π → σ"), ("new_session", "π → σ")],
+                  obj_methods={("σ", "matches_session"): dict(lean="matches_session", args=["π"], ret="Bool")},
+                  mut_methods={("σ", "handle_packet"): dict(lean="feed", args=["π"])},
+                  calls={"Session": dict(lean="new_session", args=["π", None, None, None, None, None], ret="σ")}))
+# handle_quic_packet, the session loop and the creation rule (the header parse before it is the Demux group's): a QUIC session
+# is an opaque object τ (its CID sets, "the datagram is on my address pair", "it comes from my client" are externals, as is
+# `handle_packet` = feed); `sorted(candidates, key=lambda c: (-len(c), c))` is the external `sort_cids`
+DGRAM = "session.matches_session_dgram(packet.ip_src, packet.ip_dst, packet.sport, packet.dport)"
+SPECS.append(dict(name="Main.quic_loop", group="Main2", file=MAINF, func="handle_quic_packet", theorem="Main2.quic_loop_eq_model",
+                  select={"start": "for session in quic_sessions:", "end": "if header_type != QuicHeaderType.SHORT:"},
+                  tparams=["τ", "π"], st_tparams=["τ"], exits=True,
+                  params=[("packet", "π"), ("header_type", HT), ("dcid", "Bytes"), ("quic_version", MLV), ("packet_payload", "Bytes")],
+                  places=[("quic_sessions", "quic_sessions", "List τ", "rw")], obj_lists={"quic_sessions": "τ"},
+                  externals=[("client_cids", "τ → List Bytes"), ("server_cids", "τ → List Bytes"), ("on_tuple", "τ → Bool"),
+                             ("from_client", "τ → Bool"), ("sort_cids", "List Bytes → List Bytes"), ("feed", f"τ → π → Bytes → {MLV} → τ"),
+                             ("new_quic_session", "π → τ")],
+                  attr_funcs={("τ", "client_cids"): ("client_cids", "Set Bytes"), ("τ", "server_cids"): ("server_cids", "Set Bytes")},
+                  consts={**HTYPE, DGRAM: ("(on_tuple session)", "Bool"),
+                          "packet.ip_src == session.client_ip and packet.sport == session.client_port": ("(from_client session)", "Bool"),
+                          "sorted(candidates, key=lambda c: (-len(c), c))": ("(sort_cids candidates)", "List Bytes")},
+                  mut_methods={("τ", "handle_packet"): dict(lean="feed", args=["π", "Bytes", MLV])},
+                  calls={"QuicSession": dict(lean="new_quic_session", args=["π", None, None, None, None], ret="τ")}))
+
+# keylog_reader.py: `Key.__init__` (three fields of the line split at spaces), `get_key_from_line` (the regular expression is the
+# external `re_match`: `reg.match(line)` as `Option Unit`), `get_keys_from_string` (CR removed, split at LF, the matching lines)
+GROUPS["Keylog"] = dict(imports=["TLX.PyRt", "TLX.Keylog"], decls=[], options=["set_option linter.unusedVariables false"])
+KLF = "tlexport/keylog_reader.py"
+KOBJ = "TLX.Keylog.Key"
+SPECS.append(dict(name="KL.Key_init", group="Keylog", file=KLF, func="Key.__init__", theorem="KLog.Key_init_eq_model",
+                  params=[("key_line", "Str")], ret="None", raise_state=False,
+                  places=[("self.label", "label", "Str", "rw"), ("self.client_random", "clientRandom", "Str", "rw"),
+                          ("self.value", "value", "Str", "rw")]))
+SPECS.append(dict(name="KL.get_key_from_line", group="Keylog", file=KLF, func="get_key_from_line", theorem="KLog.get_key_from_line_eq_model",
+                  params=[("line", "Str")], ret=f"Option {KOBJ}", externals=[("re_match", "List Nat → Option Unit")],
+                  drop_stmts=["reg = re.compile("], consts={"reg.match(line)": ("(re_match line)", "Option Unit")},
+                  calls={"Key": dict(lean="(fun l => (KL.Key_init l).map fun k => (⟨k.label, k.clientRandom, k.value⟩ : TLX.Keylog.Key))",
+                                     args=["Str"], ret=KOBJ, raises=True)}))
+SPECS.append(dict(name="KL.get_keys_from_string", group="Keylog", file=KLF, func="get_keys_from_string", theorem="KLog.get_keys_from_string_eq_model",
+                  params=[("key_str", "Str")], ret=f"List {KOBJ}", externals=[("re_match", "List Nat → Option Unit")],
+                  locals={"keys": f"List {KOBJ}"}, narrow_not_none=True,
+                  calls={"get_key_from_line": dict(lean="KL.get_key_from_line re_match", args=["Str"], ret=f"Option {KOBJ}", raises=True)}))
+# set_initial_decryptor: dev_initial_keys (group KeySched translates it on its own) and the QuicDecryptor constructor are externals;
+# `self.keys.update(keys)` is the model's `keysInitial := true`.
+QS_EXT.update({"dev_initial_keys": ("dev_initial_keys", f"Bytes → {QSV} → Bool → Option (List (List Nat × Bytes))"),
+               "mk_decryptor": ("mk_decryptor", f"List Bytes → TLX.Cipher.Alg → Bool → Except PyRt.Err {QDEC}")})
+qs_spec("set_initial_decryptor", [("dcid", "Bytes"), ("chacha20", "Bool")], ["dev_initial_keys", "mk_decryptor"],
+        places=QS_PLACES + [("self.quic_version", "version", QSV, "s"), ("self.can_decrypt", "canDecrypt", "Bool", "s")],
+        locals={"keys": "Option (Table Str; Bytes)"}, narrow_not_none=True,
+        consts={**PTYPE, "AESGCM": ("TLX.Cipher.Alg.aesgcm", "TLX.Cipher.Alg")},
+        stmt_updates={"self.keys.update(keys)": "keysInitial := true"},
+        calls={"dev_initial_keys": dict(lean="dev_initial_keys", args=["Bytes", QSV, "Bool"], ret="Option (Table Str; Bytes)"),
+               "QuicDecryptor": dict(lean="mk_decryptor", params=["keys", "cipher", "early"], args=["List Bytes", "TLX.Cipher.Alg", "Bool"],
+                                     ret=QDEC, raises=True)})# run(): the write loop — one `writepkt` per collected frame, in the collected order
+SPECS.append(dict(name="Main.write_all", group="Main2", file=MAINF, func="run", theorem="Main2.write_all_eq_model",
+                  select={"start": "for buf, ts in all_decrypted_sessions:"}, tparams=["β", "θ"], st_tparams=["β", "θ"],
+                  params=[("all_decrypted_sessions", "List (β × θ)")],
+                  actions={"writer.writepkt(bytes(buf), ts)": "(buf, ts)"}, action_type="(β × θ)"))
+
 THEOREMS = _uniq(theorem_of(s) for s in SPECS)
 
 
@@ -865,20 +1090,22 @@ MODULES = group_modules(GROUPS)          # all groups (`TLX.Props.Translated` im
 # property → the groups whose translated functions its model functions are (what the check proves besides its own modules)
 CHECK_GROUPS = {
     "C01": ["TlsSess", "Suites", "TlsSess2", "Decrypt"],
-    "C02": ["QuicDissect", "QuicSess", "Pn", "Varint", "Frames", "QuicDissect2", "QuicTls"],
-    "C03": ["TlsSess", "QuicDissect", "Varint", "QuicDissect2", "TlsSess2"],
-    "C04": ["Demux", "QuicSess", "QuicDissect"],
+    "C02": ["QuicDissect", "QuicSess", "Pn", "Varint", "Frames", "QuicDissect2", "QuicTls", "QuicSess2"],
+    "C03": ["TlsSess", "QuicDissect", "Varint", "QuicDissect2", "TlsSess2", "QuicSess2"],
+    "C04": ["Demux", "QuicSess", "QuicDissect", "Main2"],
     "C05": ["Reasm", "Reasm2"],
     "C06": ["Builders"],
     "C07": ["Ports", "Builders"],
+    "C08": ["Main2"],
+    "C09": ["Keylog"],
     "C10": ["Ports", "Builders"],
     "C11": ["Checksum"],
     "C13": ["TlsSess", "TlsSess2"],
     "C14": ["Suites"],
     "C15": ["KeySched"],
-    "C16": ["Pn"],
+    "C16": ["Pn", "QuicSess2"],
     "C17": ["Varint", "Frames"],
-    "C18": ["Demux"],
+    "C18": ["Demux", "Main2"],
 }
 BY_CHECK = {c: (group_modules(g), group_theorems(g)) for c, g in CHECK_GROUPS.items()}
 
@@ -1566,6 +1793,262 @@ def _qtls_cases(rng, call):
     return out
 
 
+def _main_cases(rng, call):
+    """main.py handle_packet (group Main2) with toy sessions (an object = its id and what it was fed), the key-log statements and
+    the collection fragment are straight-line: handle_packet is the one with a loop"""
+    import importlib
+    main = importlib.import_module("tlexport.main")
+    out = []
+
+    class S:
+        def __init__(self, ident, mod):
+            self.ident, self.mod, self.fed = ident, mod, 0
+
+        def matches_session(self, packet):
+            return packet.k % self.mod == 0
+
+        def handle_packet(self, packet):
+            self.fed += packet.k
+    saved = main.Session, list(main.server_ports)
+    main.Session = lambda packet, *a: S(100 + packet.k, 1)
+    try:
+        for _ in range(4):
+            ss = [S(i, rng.choice([2, 3, 5, 7])) for i in range(rng.randint(0, 4))]
+            before = "[" + ", ".join(f"({x.ident}, {x.mod}, {x.fed})" for x in ss) + "]"
+            pk = types.SimpleNamespace(k=rng.randint(1, 12), dport=rng.choice([443, 80, 5000]), sport=rng.choice([443, 80, 5000]))
+            main.server_ports[:] = rng.choice([[443], [443, 5000], []])
+            call(main.handle_packet, pk, None, b"", ss, {}, False, False)
+            after = "[" + ", ".join(f"({x.ident}, {x.mod}, {x.fed})" for x in ss) + "]"
+            out.append(("(fun k ss ports dp sp => (Main.handle_packet (σ := Nat × Nat × Nat) (π := Nat) (fun s q => q % s.2.1 == 0) "
+                        "(fun s q => (s.1, s.2.1, s.2.2 + q)) (fun q => (100 + q, 1, 0)) k ss ports dp sp).sessions)",
+                        f"{pk.k} {before} [{', '.join(str(x) for x in main.server_ports)}] {pk.dport} {pk.sport}", after))
+        # handle_quic_packet: the session loop (toy sessions: id, CID sets, "on my address pair", "from my client", the CIDs fed)
+        class Q:
+            def __init__(self, ident):
+                self.ident, self.fed = ident, []
+                self.client_cids = {bytes(rng.randrange(3) for _ in range(rng.randint(0, 2))) for _ in range(rng.randint(0, 2))}
+                self.server_cids = {bytes(rng.randrange(3) for _ in range(rng.randint(0, 2))) for _ in range(rng.randint(0, 2))}
+                self.on, self.client_ip, self.client_port = rng.random() < 0.3, rng.choice([b"c", b"x"]), 7
+
+            def matches_session_dgram(self, *a):
+                return self.on
+
+            def handle_packet(self, packet, cid, ver):
+                self.fed.append(cid)
+        savedq = main.QuicSession
+        main.QuicSession = lambda packet, *a: Q(100)
+        try:
+            for _ in range(5):
+                ss = [Q(i) for i in range(rng.randint(0, 3))]
+                lb = lambda st: "[" + ", ".join(_b(x) for x in sorted(st)) + "]"
+                before = "[" + ", ".join(f"({x.ident}, {lb(x.client_cids)}, {lb(x.server_cids)}, {_bool(x.on)}, {_bool(x.client_ip == b'c')}, ([] : List TLX.Bytes))"
+                                         for x in ss) + "]"
+                dcid = bytes(rng.randrange(3) for _ in range(rng.randint(0, 2)))
+                long = rng.random() < 0.5
+                payload = (b"\xc0\x00\x00\x00\x01" + bytes([len(dcid)]) + dcid + b"\x00\x00") if long else b"\x40" + dcid + b"\x09"
+                pk = types.SimpleNamespace(tls_data=payload, ip_src=b"c", ip_dst=b"s", sport=7, dport=443)
+                call(main.handle_quic_packet, pk, [], ss, {}, False)
+                after = "[" + ", ".join(f"({x.ident}, [" + ", ".join(_b(c) for c in x.fed) + "])" for x in ss) + "]"
+                out.append(("(fun ht d v pl ss => match (Main.quic_loop (τ := Nat × List TLX.Bytes × List TLX.Bytes × Bool × Bool × List TLX.Bytes) (π := Unit) "
+                            "(fun s => s.2.1) (fun s => s.2.2.1) (fun s => s.2.2.2.1) (fun s => s.2.2.2.2.1) TLX.MainLoop.sortCids "
+                            "(fun s _ c _ => (s.1, s.2.1, s.2.2.1, s.2.2.2.1, s.2.2.2.2.1, s.2.2.2.2.2 ++ [c])) (fun _ => (100, [], [], false, false, [])) "
+                            "() ht d v pl ss) with | .ok _ st => st.quic_sessions.map (fun s => (s.1, s.2.2.2.2.2)) | .raised _ _ => [])",
+                            f"TLX.Quic.HType.{'long' if long else 'short'} {_b(dcid if long else b'')} TLX.MainLoop.Version.{'v1' if long else 'unknown'} {_b(payload)} {before}",
+                            after))
+        finally:
+            main.QuicSession = savedq
+    finally:
+        main.Session = saved[0]
+        main.server_ports[:] = saved[1]
+    return out
+
+
+def _kl_cases(rng, call):
+    """keylog_reader.py (group Keylog): `Key(line)` on lines with few or many fields; get_keys_from_string with the REAL regular
+    expression against the translation with the model's `accepts` as `re_match`"""
+    import importlib
+    kr = importlib.import_module("tlexport.keylog_reader")
+    out = []
+    st = lambda x: "([" + ", ".join(str(ord(c)) for c in x) + "] : List Nat)"
+    hexs = lambda n, up: "".join(rng.choice("0123456789abcdef" + ("ABCDEF" if up else "")) for _ in range(n))
+
+    def line():
+        lab = rng.choice(["CLIENT_RANDOM", "CLIENT_HANDSHAKE_TRAFFIC_SECRET", "AB", "X0_", "A" * 33, "client_random", "RSA", "EXPORTER_SECRET1"])
+        cr = hexs(rng.choice([64, 64, 64, 63, 65]), rng.random() < 0.3)
+        return rng.choice([f"{lab} {cr} {hexs(rng.randint(0, 6), True)}", f"{lab} {cr}", f"{lab}  {cr} ab", f"# {lab}", "", f"{lab} {cr} zz yy"])
+    for _ in range(3):
+        l = rng.choice([line(), "a b", "a", "a b c d", " "])
+        me = types.SimpleNamespace()
+        k, v = call(kr.Key.__init__, me, l)
+        out.append(("(fun l => (KL.Key_init l).map fun k => (k.label, k.clientRandom, k.value))", st(l),
+                    f".ok ({st(me.label)}, {st(me.client_random)}, {st(me.value)})" if k == "ok" else f".error .{v}"))
+    for _ in range(3):
+        text = rng.choice(["\n", "\r\n", "\n\n"]).join(line() for _ in range(rng.randint(0, 4)))
+        k, v = call(kr.get_keys_from_string, text)
+        exp = "[" + ", ".join(f"({st(x.label)}, {st(x.client_random)}, {st(x.value)})" for x in v) + "]"
+        out.append(("(fun s => (KL.get_keys_from_string (fun l => if TLX.Keylog.accepts .any l then some () else none) s).map "
+                    "fun ks => ks.map fun k => (k.label, k.clientRandom, k.value))", st(text), f".ok {exp}"))
+    return out
+
+
+def _qs_cases(rng, call):
+    """QuicSession.decrypt_packet / handle_frame / handle_quic_packet (group QuicSess2) on a session made without `__init__`, with toy
+    decryptors, a toy `parse_frames` and toy `check_key_epoch` / `get_full_packet_number` / `set_largest_packet_number` — the same
+    functions as externals on the Lean side; observed: the data of the STREAM frames in the output buffer (the toy decryptor returns
+    its tag + the associated data), the epochs (the toys count there) and the CID sets"""
+    import importlib
+    qs = importlib.import_module("tlexport.quic.quic_session")
+    qp = importlib.import_module("tlexport.quic.quic_packet")
+    qf = importlib.import_module("tlexport.quic.quic_frame")
+    pts = {getattr(qp.QuicPacketType, k.split(".")[1]): v[0] for k, v in PTYPE.items()}
+    out = []
+
+    def rb(lo, hi):
+        return bytes(rng.randrange(256) for _ in range(rng.randint(lo, hi)))
+
+    def ob(x):
+        return "none" if x is None else f"(some {_b(x)})"
+
+    class Dec:
+        def __init__(self, tag):
+            self.tag = tag
+
+        def decrypt(self, payload, pn, aad, srv):
+            if self.tag == 9:
+                raise ValueError("tag")
+            if payload is None:
+                raise TypeError("payload")
+            return bytes([self.tag]) + aad
+
+    def ldec(d):
+        return f"({{ alg := TLX.Cipher.Alg.aesgcm, server := none, client := ⟨[{d.tag}], []⟩ }} : TLX.Quic.Session.Dec)"
+
+    def parse(payload, q):
+        if payload[0] == 7:
+            raise IndexError("frames")
+        f = object.__new__(qf.StreamFrame)
+        f.data, f.src_packet = payload, q
+        return [f]
+    HCF = "(fun st o => .ok () { st with epochClient := st.epochClient + 100 })"
+    CKE = "(fun st kp _ => .ok () { st with epochServer := st.epochServer + (if kp = some 1 then 1 else 0) })"
+    GFPN = "(fun st q => match q.pn with | some b => .ok b st | none => .raised .type st)"
+    SLPN = "(fun st _ _ => .ok () { st with epochClient := st.epochClient + 1000 })"
+    DEC = ("(fun d pl _ aad _ => if d.client.key = [9] then .error .value else match pl with | none => .error .type "
+           "| some _ => .ok (d.client.key ++ aad))")
+    PARSE = ("(fun pl q => if pl.head? = some 7 then .error .index else "
+             ".ok [⟨.parsed (.stream 0 0 false false false 0 0 0 pl), q.ts, q.isServer, q.ptype⟩])")
+    VIEW = ("(fun r => match r with | PyRt.Res.ok _ t => (t.out.map (fun o => match o.frame with "
+            "| .parsed (.stream _ _ _ _ _ _ _ _ d) => d | .versionNeg => [86] | _ => []), t.epochServer, t.epochClient, "
+            "t.serverCids.length, t.clientCids.length, t.decInitial.isSome, PyRt.Err.fuel) "
+            "| PyRt.Res.raised e t => (t.out.map (fun _ => []), t.epochServer, t.epochClient, t.serverCids.length, t.clientCids.length, t.decInitial.isSome, e))")
+
+    def session():
+        me = types.SimpleNamespace()
+        me.decryptors = {}
+        for k_ in ("Initial", "Handshake", "Early"):
+            if rng.random() < 0.7:
+                me.decryptors[k_] = Dec(rng.choice([1, 2, 7, 9]))
+        if rng.random() < 0.8:
+            me.decryptors["Application"] = [Dec(rng.choice([3, 4, 7, 9])) for _ in range(rng.randint(1, 2))]
+        me.epoch_server, me.epoch_client = rng.randint(0, 2), rng.randint(0, 2)
+        me.server_cids, me.client_cids = set(), set()
+        me.output_buffer = []
+        me.check_key_epoch = lambda kp, srv: setattr(me, "epoch_server", me.epoch_server + (1 if kp == 1 else 0))
+        me.get_full_packet_number = lambda q: bytes(q.packet_num)
+        me.set_largest_packet_number = lambda q, pn: setattr(me, "epoch_client", me.epoch_client + 1000)
+        me.handle_crypto_frame = lambda f: setattr(me, "epoch_client", me.epoch_client + 100)
+        me.handle_frame = lambda f: qs.QuicSession.handle_frame(me, f)
+        me.decrypt_packet = lambda q: qs.QuicSession.decrypt_packet(me, q)
+        me.keys, me.tls_session, me.hash_fun, me.cipher, me.key_length, me.alpn = {"k": b"1"}, None, 1, 1, 1, b"h3"
+        return me
+
+    def lstate(me):
+        d = me.decryptors
+        g = lambda k_: "none" if k_ not in d else f"(some {ldec(d[k_])})"
+        app = "none" if "Application" not in d else "(some [" + ", ".join(ldec(x) for x in d["Application"]) + "])"
+        return (f"({{ tls := (), decInitial := {g('Initial')}, decHandshake := {g('Handshake')}, decEarly := {g('Early')}, decApp := {app}, "
+                f"epochServer := {me.epoch_server}, epochClient := {me.epoch_client} }} : TLX.Quic.Session.St Unit)")
+
+    def packet():
+        short = rng.random() < 0.35
+        q = object.__new__(qp.ShortQuicPacket if short else qp.LongQuicPacket)
+        T = qp.QuicPacketType
+        q.packet_type = rng.choice([T.RTT_1] * 4 + [T.INITIAL] if short else [T.INITIAL, T.INITIAL, T.HANDSHAKE, T.RTT_O, T.RETRY, T.VERSION_NEG, T.RTT_1])
+        q.isserver, q.ts, q.key_phase = rng.random() < 0.5, rng.randint(0, 9), (rng.choice([0, 1]) if short else None)
+        q.first_byte, q.dcid = rb(1, 1), rb(0, 3)
+        opt = lambda v: None if rng.random() < 0.08 else v
+        if short:
+            pass                       # a ShortQuicPacket has none of the long-header attributes
+        else:
+            q.version, q.dcid_len, q.scid_len, q.scid = opt(rb(4, 4)), opt(rb(1, 1)), opt(rb(1, 1)), opt(rb(0, 2))
+            q.token_len_bytes, q.token, q.packet_len_bytes = opt(rb(1, 1)), opt(rb(0, 2)), opt(rb(1, 2))
+            q.supported_version = rb(4, 4)
+        q.packet_num, q.payload = opt(rb(1, 2)), opt(rb(1, 3))
+        g = lambda n_: getattr(q, n_, None)
+        lean = (f"({{ htype := TLX.Quic.HType.{'short' if short else 'long'}, ptype := {pts[q.packet_type]}, isServer := {_bool(q.isserver)}, ts := {q.ts}, "
+                f"firstByte := {_b(q.first_byte)}, version := {ob(g('version'))}, dcidLen := {ob(g('dcid_len'))}, dcid := {_b(q.dcid)}, scidLen := {ob(g('scid_len'))}, "
+                f"scid := {ob(g('scid'))}, tokenLenBytes := {ob(g('token_len_bytes'))}, token := {ob(g('token'))}, lenBytes := {ob(g('packet_len_bytes'))}, "
+                f"pn := {ob(q.packet_num)}, payload := {ob(q.payload)}, keyPhase := {'none' if q.key_phase is None else f'(some {q.key_phase})'} }} : TLX.Quic.Pkt)")
+        return q, lean
+
+    def view(me, err="fuel"):
+        datas = ", ".join(_b(f.data) if isinstance(f, qf.StreamFrame) else ("[86]" if isinstance(f, qf.PseudoVersionNegotiationFrame) else "[]")
+                          for f in me.output_buffer)
+        n = lambda st: len([x for x in st if x is not None])
+        return (f"([{datas}], {me.epoch_server}, {me.epoch_client}, {n(me.server_cids)}, {n(me.client_cids)}, "
+                f"{_bool('Initial' in me.decryptors)}, PyRt.Err.{err})")
+    saved = qs.parse_frames
+    qs.parse_frames = parse
+    try:
+        for _ in range(4):
+            me = session()
+            q, lq = packet()
+            before = lstate(me)
+            k, v = call(qs.QuicSession.decrypt_packet, me, q)
+            assert k == "ok"
+            out.append((f"(fun p s => {VIEW} (QS.decrypt_packet (σ := Unit) {HCF} {CKE} {GFPN} {SLPN} {DEC} {PARSE} p s))", f"{lq} {before}", view(me)))
+        for _ in range(3):
+            me = session()
+            qs_ = [packet() for _ in range(rng.randint(0, 3))]
+            me.packet_buffer_quic = [a for a, _ in qs_]
+            before = lstate(me)
+            k, v = call(qs.QuicSession.handle_quic_packet, me)
+            if k == "err":
+                # the view of a raise does not show the frame data
+                for f in me.output_buffer:
+                    f.data = b""
+                me.output_buffer = [f if isinstance(f, qf.StreamFrame) else types.SimpleNamespace() for f in me.output_buffer]
+            lst = "[" + ", ".join(b_ for _, b_ in qs_) + "]"
+            out.append((f"(fun ps s => {VIEW} (QS.handle_quic_packet (σ := Unit) {HCF} {CKE} {GFPN} {SLPN} {DEC} {PARSE} () ps s))", f"{lst} {before}",
+                        view(me, "fuel" if k == "ok" else v)))
+        # set_initial_decryptor with a toy dev_initial_keys (None, a full dict, a dict with an entry missing) and a toy QuicDecryptor
+        saved2 = (qs.dev_initial_keys, qs.QuicDecryptor)
+        try:
+            for _ in range(3):
+                me = types.SimpleNamespace(quic_version=None, can_decrypt=True, keys={}, decryptors={})
+                names = ["server_initial_key", "server_initial_iv", "client_initial_key", "client_initial_iv"]
+                d = rng.choice([None, {n_: rb(1, 2) for n_ in names}, {n_: rb(1, 2) for n_ in names[:rng.randint(0, 3)]}])
+                qs.dev_initial_keys = lambda dcid, ver, ch: d
+                qs.QuicDecryptor = lambda ks, cipher, early: ("dec", list(ks), early)
+                k, v = call(qs.QuicSession.set_initial_decryptor, me, b"\x01", False)
+                ld = "none" if d is None else "(some [" + ", ".join("(([" + ", ".join(str(ord(c)) for c in n_) + "] : List Nat), " + _b(x) + ")" for n_, x in d.items()) + "])"
+                got = me.decryptors.get("Initial")
+                exp_dec = "none" if got is None else f"(some ([{', '.join(_b(x) for x in got[1])}], {_bool(got[2])}))"
+                out.append(("(fun d => (fun r => match r with | PyRt.Res.ok _ t => (t.canDecrypt, t.keysInitial, (t.decInitial.map (fun x => x.client.key)).getD [], (t.decInitial.map (fun x => x.server.isSome)).getD false, t.decInitial.isSome, PyRt.Err.fuel) "
+                            "| PyRt.Res.raised e t => (t.canDecrypt, t.keysInitial, (t.decInitial.map (fun x => x.client.key)).getD [], (t.decInitial.map (fun x => x.server.isSome)).getD false, t.decInitial.isSome, e)) "
+                            "(QS.set_initial_decryptor (σ := Unit) (fun _ _ _ => d) (fun ks alg early => .ok { alg := alg, server := if early then some ⟨[], []⟩ else none, client := ⟨ks.flatten, []⟩ }) "
+                            "[1] false ({ tls := () } : TLX.Quic.Session.St Unit)))",
+                            ld,
+                            f"({_bool(me.can_decrypt)}, {_bool(len(me.keys) > 0)}, "
+                            + (f"{_b(b'')}, false, false" if got is None else f"{_b(b''.join(got[1]))}, {_bool(got[2])}, true")
+                            + f", PyRt.Err.{'fuel' if k == 'ok' else v})"))
+        finally:
+            qs.dev_initial_keys, qs.QuicDecryptor = saved2
+    finally:
+        qs.parse_frames = saved
+    return out
+
+
 def _sess_case(rng, ses, vers, call):
     """one call of one of the record handlers on a random session state → (lean name, arguments, expected)"""
     import types
@@ -1984,6 +2467,9 @@ def _cases(rng, n):
         out.extend(_ks_cases(rng, call))
         out.extend(_dec_cases(rng, call))
         out.extend(_qtls_cases(rng, call))
+        out.extend(_qs_cases(rng, call))
+        out.extend(_main_cases(rng, call))
+        out.extend(_kl_cases(rng, call))
         for _ in range(2):
             out.extend(_bld_cases(rng, call))
         # output builders
